@@ -7,8 +7,8 @@
 // every output line starts with "R " (sanitizer reports share the stream).
 // case line:   lruset|lrumap|splayset|splaymulti[:variant]  tok tok ...   (variants: see below)
 //              exh|exhv <kind> <nkeys> <len>      (bounded-exhaustive: all histories of that length)
-// LRU tokens:  P,k[,v] PG,k,j (put(k, get(j)), map only) T,k TI,k G,k GT,k E,k EI,k X,k S O C
-// splay tokens: I,k E,k EN,k (find + erase(const Node*)) X,k F,k C T
+// LRU tokens:  @OP,j,.. = OP with the key argument aliasing the stored value of j (map only); P,k[,v] PG,k,j (put(k, get(j)), map only) T,k TI,k G,k GT,k E,k EI,k X,k S O C
+// splay tokens: @OP,j = OP with the key argument aliasing the key of the node find(j) returns; I,k E,k EN,k (find + erase(const Node*)) X,k F,k C T
 #include <tlx/container/lru_cache.hpp>
 #include <tlx/container/splay_tree.hpp>
 #include "ledger.hpp"
@@ -116,11 +116,14 @@ struct MapBase {
     static const bool is_map = true;
     tlx::LruCacheMap<int, int, CountingAlloc<std::pair<int, int> > > c;
     explicit MapBase(Books&) {}
+    typedef int KeyT;
     static int K(int k) { return k; }
-    void put(int k, int v) { c.put(k, v); }
-    void put_alias(int k, int j) { c.put(k, c.get(j)); }      // the value argument is a reference into the cache
-    int get(int k) { return c.get(k); }
-    int get_touch(int k) { return c.get_touch(k); }
+    static int UK(const int& k) { return k; }
+    const int& alias(int j) { return c.get(j); }               // a reference into the cache: the stored value of key j
+    void put(const int& k, int v) { c.put(k, v); }
+    void put_alias(const int& k, int j) { c.put(k, c.get(j)); }   // the value argument is a reference into the cache
+    int get(const int& k) { return c.get(k); }
+    int get_touch(const int& k) { return c.get_touch(k); }
     std::pair<int, int> pop() { return c.pop(); }
 };
 // S: std::string -> std::string (heap-owning key and value), every template argument and the constructor argument defaulted
@@ -128,11 +131,14 @@ struct MapS {
     static const bool is_map = true;
     tlx::LruCacheMap<std::string, std::string> c;
     explicit MapS(Books&) {}
+    typedef std::string KeyT;
     static std::string K(int k) { return skey(k); }
-    void put(int k, int v) { c.put(skey(k), skey(v)); }
-    void put_alias(int k, int j) { c.put(skey(k), c.get(skey(j))); }
-    int get(int k) { return unskey(c.get(skey(k))); }
-    int get_touch(int k) { return unskey(c.get_touch(skey(k))); }
+    static int UK(const std::string& k) { return unskey(k); }
+    const std::string& alias(int j) { return c.get(skey(j)); }
+    void put(const std::string& k, int v) { c.put(k, skey(v)); }
+    void put_alias(const std::string& k, int j) { c.put(k, c.get(skey(j))); }
+    int get(const std::string& k) { return unskey(c.get(k)); }
+    int get_touch(const std::string& k) { return unskey(c.get_touch(k)); }
     std::pair<int, int> pop() { auto p = c.pop(); return std::make_pair(unskey(p.first), unskey(p.second)); }
 };
 // T: int -> Tracked (ledger value type), explicit stateful allocator passed to the constructor
@@ -141,44 +147,56 @@ struct MapT {
     typedef tlx::LruCacheMap<int, Tracked, TagAlloc<std::pair<int, Tracked> > > C;
     C c;
     explicit MapT(Books& b) : c(TagAlloc<std::pair<int, Tracked> >(&b.tag)) { b.expect_tag = true; }
+    typedef int KeyT;
     static int K(int k) { return k; }
-    void put(int k, int v) { c.put(k, Tracked(v)); }
-    void put_alias(int k, int j) { c.put(k, c.get(j)); }
-    int get(int k) { return c.get(k).get(); }
-    int get_touch(int k) { return c.get_touch(k).get(); }
+    static int UK(const int& k) { return k; }
+    const int& alias(int j) { return c.get(j).v; }             // the int member of the Tracked value stored in the list node
+    void put(const int& k, int v) { c.put(k, Tracked(v)); }
+    void put_alias(const int& k, int j) { c.put(k, c.get(j)); }
+    int get(const int& k) { return c.get(k).get(); }
+    int get_touch(const int& k) { return c.get_touch(k).get(); }
     std::pair<int, int> pop() { C::KeyValuePair p = c.pop(); return std::make_pair(p.first, p.second.get()); }
 };
 struct SetBase {
     static const bool is_map = false;
     tlx::LruCacheSet<int, CountingAlloc<int> > c;
     explicit SetBase(Books&) {}
+    typedef int KeyT;
     static int K(int k) { return k; }
-    void put(int k, int) { c.put(k); }
-    void put_alias(int, int) {}
-    int get(int) { return 0; }
-    int get_touch(int) { return 0; }
+    static int UK(const int& k) { return k; }
+    const int& alias(int) { throw std::logic_error("LruCacheSet hands out no reference into its storage"); }
+    void put(const int& k, int) { c.put(k); }
+    void put_alias(const int&, int) {}
+    int get(const int&) { return 0; }
+    int get_touch(const int&) { return 0; }
     std::pair<int, int> pop() { return std::make_pair(c.pop(), 0); }
 };
 struct SetS {   // std::string keys, default allocator, default constructor argument
     static const bool is_map = false;
     tlx::LruCacheSet<std::string> c;
     explicit SetS(Books&) {}
+    typedef std::string KeyT;
     static std::string K(int k) { return skey(k); }
-    void put(int k, int) { c.put(skey(k)); }
-    void put_alias(int, int) {}
-    int get(int) { return 0; }
-    int get_touch(int) { return 0; }
+    static int UK(const std::string& k) { return unskey(k); }
+    const std::string& alias(int) { throw std::logic_error("LruCacheSet hands out no reference into its storage"); }
+    void put(const std::string& k, int) { c.put(k); }
+    void put_alias(const std::string&, int) {}
+    int get(const std::string&) { return 0; }
+    int get_touch(const std::string&) { return 0; }
     std::pair<int, int> pop() { return std::make_pair(unskey(c.pop()), 0); }
 };
 struct SetA {   // explicit stateful allocator passed to the constructor
     static const bool is_map = false;
     tlx::LruCacheSet<int, TagAlloc<int> > c;
     explicit SetA(Books& b) : c(TagAlloc<int>(&b.tag)) { b.expect_tag = true; }
+    typedef int KeyT;
     static int K(int k) { return k; }
-    void put(int k, int) { c.put(k); }
-    void put_alias(int, int) {}
-    int get(int) { return 0; }
-    int get_touch(int) { return 0; }
+    static int UK(const int& k) { return k; }
+    const int& alias(int) { throw std::logic_error("LruCacheSet hands out no reference into its storage"); }
+    void put(const int& k, int) { c.put(k); }
+    void put_alias(const int&, int) {}
+    int get(const int&) { return 0; }
+    int get_touch(const int&) { return 0; }
     std::pair<int, int> pop() { return std::make_pair(c.pop(), 0); }
 };
 
@@ -196,33 +214,48 @@ static bool run_lru(const std::vector<Op>& ops, Sink& out, int& propfail) {
         for (const Op& o : ops) {
             if (idx) out.sep(' ');
             auto fail = [&]() { if (propfail < 0) propfail = idx; };
-            auto it = R.find(o.k);
+            // "@OP,j,...": the key argument of OP is a reference INTO the cache -- the stored value of key j as
+            // returned by get(j) (needs Key and Value of one type; for MapT the int inside the stored Tracked).
+            // The operation is the same as OP with that value as key (value taken at call time); what is tested
+            // is that the member does not read its argument after it has destroyed the entry the argument lives in.
+            const bool aliased = !o.name.empty() && o.name[0] == '@';
+            const std::string n = aliased ? o.name.substr(1) : o.name;
+            typename Impl::KeyT tmpkey = Impl::K(o.k);
+            const typename Impl::KeyT* kp = &tmpkey;
+            int k = o.k;
+            bool skip = false;
+            if (aliased) {
+                auto jt = R.find(o.k);
+                try { kp = &I.alias(o.k); k = Impl::UK(*kp); if (jt == R.l.end() || jt->second != k) fail(); }
+                catch (const std::range_error&) { out.res('~'); skip = true; if (jt != R.l.end()) fail(); }
+            }
+            auto it = R.find(k);
             bool present = it != R.l.end();
-            const std::string& n = o.name;
-            if (n == "P") {
+            if (skip) {
+            } else if (n == "P") {
                 int v = IsMap ? o.v : 0;
-                I.put(o.k, v); out.res('u'); B.used = true;
+                I.put(*kp, v); out.res('u'); B.used = true;
                 if (present) R.l.erase(it);
-                R.l.push_front(std::make_pair(o.k, v));
+                R.l.push_front(std::make_pair(k, v));
             } else if (n == "PG") {
                 // put(k, get(j)): the value is passed as a reference to the stored value of key j (o.v = j)
                 auto jt = R.find(o.v);
                 bool threw = false;
-                try { I.put_alias(o.k, o.v); } catch (const std::range_error&) { threw = true; }
+                try { I.put_alias(*kp, o.v); } catch (const std::range_error&) { threw = true; }
                 out.res(threw ? '!' : 'u');
                 if (threw != (jt == R.l.end())) fail();
                 if (jt != R.l.end()) {
                     int v = jt->second;
                     if (present) R.l.erase(it);
-                    R.l.push_front(std::make_pair(o.k, v));
+                    R.l.push_front(std::make_pair(k, v));
                 }
             } else if (n == "T" || n == "E" || n == "G" || n == "GT") {
                 bool threw = false; int val = 0;
                 try {
-                    if (n == "T") I.c.touch(Impl::K(o.k));
-                    else if (n == "E") I.c.erase(Impl::K(o.k));
-                    else if (n == "G") val = I.get(o.k);
-                    else val = I.get_touch(o.k);
+                    if (n == "T") I.c.touch(*kp);
+                    else if (n == "E") I.c.erase(*kp);
+                    else if (n == "G") val = I.get(*kp);
+                    else val = I.get_touch(*kp);
                 } catch (const std::range_error&) { threw = true; }
                 if (threw) out.res('!'); else if (n == "G" || n == "GT") out.res('v', val); else out.res('u');
                 if (threw != !present) fail();
@@ -232,12 +265,12 @@ static bool run_lru(const std::vector<Op>& ops, Sink& out, int& propfail) {
                     else if (n == "E") R.l.erase(it);
                 }
             } else if (n == "TI" || n == "EI") {
-                bool b = n == "TI" ? I.c.touch_if_exists(Impl::K(o.k)) : I.c.erase_if_exists(Impl::K(o.k));
+                bool b = n == "TI" ? I.c.touch_if_exists(*kp) : I.c.erase_if_exists(*kp);
                 out.res('b', b);
                 if (b != present) fail();
                 if (present) { if (n == "TI") R.l.splice(R.l.begin(), R.l, it); else R.l.erase(it); }
             } else if (n == "X") {
-                bool b = CI.exists(Impl::K(o.k)); out.res('b', b); if (b != present) fail();
+                bool b = CI.exists(*kp); out.res('b', b); if (b != present) fail();
             } else if (n == "S") {
                 size_t s = CI.size(); out.res('s', (long)s); if (s != R.l.size()) fail();
             } else if (n == "O") {
@@ -311,7 +344,7 @@ template <bool Dup> struct FreeTree {
     struct Node { Node *left = nullptr, *right = nullptr; int key; explicit Node(int k) : key(k) {} };
     Node* root_ = nullptr; size_t size_ = 0; DirCmp cmp_;
     ~FreeTree() { clear(); }
-    bool insert(long k) {
+    template <typename KT> bool insert(const KT& k) {
         if (root_ != nullptr) {
             root_ = tlx::splay(k, root_, cmp_);
             if (!Dup && !cmp_(k, root_->key) && !cmp_(root_->key, k)) return false;
@@ -321,20 +354,22 @@ template <bool Dup> struct FreeTree {
         size_++;
         return true;
     }
-    bool erase(long k) {
+    template <typename KT> bool erase_key(const KT& k) {
         Node* out = tlx::splay_erase(k, root_, cmp_);
         if (!out) return false;
         delete out; size_--;
         return true;
     }
-    bool erase(const Node* n) { return erase((long)n->key); }
+    bool erase(const long& k) { return erase_key(k); }
+    bool erase(const int& k) { return erase_key(k); }
+    bool erase(const Node* n) { return erase_key(n->key); }
     void clear() { tlx::splay_traverse_postorder([this](Node* n) { delete n; size_--; }, root_); root_ = nullptr; }
-    bool exists(long k) {
+    template <typename KT> bool exists(const KT& k) {
         if (root_ == nullptr) return false;
         root_ = tlx::splay(k, root_, cmp_);
         return !cmp_(root_->key, k) && !cmp_(k, root_->key);
     }
-    Node* find(long k) { return (root_ = tlx::splay(k, root_, cmp_)); }
+    template <typename KT> Node* find(const KT& k) { return (root_ = tlx::splay(k, root_, cmp_)); }
     size_t size() const { return size_; }
     bool empty() const { return size_ == 0; }
     bool check() const {
@@ -367,48 +402,59 @@ static void run_splay(const std::vector<Op>& ops, Sink& out, int& propfail) {
         for (const Op& o : ops) {
             if (idx) out.sep(' ');
             auto fail = [&]() { if (propfail < 0) propfail = idx; };
-            const std::string& n = o.name;
-            auto key = V::K(o.k);
-            size_t cnt = R.count(o.k);
-            if (n == "I") {
-                bool b = T.insert(key); out.res('b', b); B.used = true;
-                bool exp = Dup || cnt == 0;
-                if (b != exp) fail();
-                if (exp) R.insert(o.k);
-            } else if (n == "E") {
-                bool b = T.erase(key); out.res('b', b);
-                if (b != (cnt > 0)) fail();
-                if (cnt > 0) R.erase(R.find(o.k));
-            } else if (n == "EN") {
-                // erase(const Node*): look the node up with find(), erase through the node pointer (the key
-                // reference then aliases the node being removed); nothing is erased when the key is absent
-                auto* nd = T.find(key);
-                bool b = false;
-                if (nd != nullptr && V::U(nd->key) == o.k) b = T.erase(nd);
-                out.res('b', b);
-                if (b != (cnt > 0)) fail();
-                if (cnt > 0) R.erase(R.find(o.k));
-            } else if (n == "X") {
-                bool b = T.exists(key); out.res('b', b);
-                if (b != (cnt > 0)) fail();
-            } else if (n == "F") {
-                auto* nd = T.find(key);
-                if (nd == nullptr) { out.res('f'); out.sep('-'); if (!R.empty()) fail(); }
-                else {
-                    int fk = V::U(nd->key); out.res('f', fk);
-                    if (R.count(fk) == 0) fail();
-                    if (cnt > 0 && fk != o.k) fail();
-                    if (cnt == 0) {   // must be a neighbour: no stored key strictly between fk and k
-                        int lo = std::min(fk, o.k), hi = std::max(fk, o.k);
-                        auto it = R.upper_bound(lo);
-                        if (fk == o.k || (it != R.end() && *it < hi)) fail();
+            // "@OP,j": the key argument of OP is a reference into a tree node -- the key of the node returned by
+            // find(j) (which may be a neighbour of j).  Same operation as OP with that key value.
+            const bool aliased = !o.name.empty() && o.name[0] == '@';
+            const std::string n = aliased ? o.name.substr(1) : o.name;
+            auto body = [&](const auto& key, const int k) {
+                size_t cnt = R.count(k);
+                if (n == "I") {
+                    bool b = T.insert(key); out.res('b', b); B.used = true;
+                    bool exp = Dup || cnt == 0;
+                    if (b != exp) fail();
+                    if (exp) R.insert(k);
+                } else if (n == "E") {
+                    bool b = T.erase(key); out.res('b', b);
+                    if (b != (cnt > 0)) fail();
+                    if (cnt > 0) R.erase(R.find(k));
+                } else if (n == "EN") {
+                    // erase(const Node*): look the node up with find(), erase through the node pointer (the key
+                    // reference then aliases the node being removed); nothing is erased when the key is absent
+                    auto* nd = T.find(key);
+                    bool b = false;
+                    if (nd != nullptr && V::U(nd->key) == k) b = T.erase(nd);
+                    out.res('b', b);
+                    if (b != (cnt > 0)) fail();
+                    if (cnt > 0) R.erase(R.find(k));
+                } else if (n == "X") {
+                    bool b = T.exists(key); out.res('b', b);
+                    if (b != (cnt > 0)) fail();
+                } else if (n == "F") {
+                    auto* nd = T.find(key);
+                    if (nd == nullptr) { out.res('f'); out.sep('-'); if (!R.empty()) fail(); }
+                    else {
+                        int fk = V::U(nd->key); out.res('f', fk);
+                        if (R.count(fk) == 0) fail();
+                        if (cnt > 0 && fk != k) fail();
+                        if (cnt == 0) {   // must be a neighbour: no stored key strictly between fk and k
+                            int lo = std::min(fk, k), hi = std::max(fk, k);
+                            auto it = R.upper_bound(lo);
+                            if (fk == k || (it != R.end() && *it < hi)) fail();
+                        }
                     }
-                }
-            } else if (n == "C") {
-                T.clear(); out.res('u'); R.clear();
-            } else if (n == "T") {
-                out.res('t');
-            } else { out.res('?'); }
+                } else if (n == "C") {
+                    T.clear(); out.res('u'); R.clear();
+                } else if (n == "T") {
+                    out.res('t');
+                } else { out.res('?'); }
+            };
+            if (aliased) {
+                auto* src = T.find(V::K(o.k));
+                if (src == nullptr) { out.res('~'); if (!R.empty()) fail(); }
+                else { int k = V::U(src->key); if (R.count(k) == 0) fail(); body(src->key, k); }
+            } else {
+                body(V::K(o.k), o.k);
+            }
             // after every operation: size(), empty(), check() and the in-order traversal against the reference
             size_t s = CT.size();
             out.sep('/'); out.num((long)s); if (out.text) out.s += std::to_string(s);
